@@ -60,6 +60,12 @@ theorem file_holds_names_other_line_ends (xs : List (List Char)) (last : List Ch
     CliParse.readLines (xs.flatMap (fun x => x ++ ['\r', '\n'])) = xs :=
   ⟨CliParse.splitGo_joined CliParse.nlBreaks xs last h hl hne, CliParse.splitGo_crlf CliParse.nlBreaks xs h⟩
 
+/-- a list file whose last line lacks the final newline holds the same names as the file with the newline added -/
+theorem final_newline_is_not_information (xs : List (List Char)) (last : List Char)
+    (h : ∀ x ∈ xs, CliParse.Clean CliParse.nlBreak x) (hl : CliParse.Clean CliParse.nlBreak last) (hne : last ≠ []) :
+    CliParse.readLines (CliParse.fileOf xs ++ last) = CliParse.readLines (CliParse.fileOf (xs ++ [last])) :=
+  CliParse.splitGo_final_newline CliParse.nlBreaks xs last h hl hne
+
 /-- F29 (fixed in /repo): read with `str.splitlines`, a name holding one of its other separators (here U+0085) was cut in
     two by the file form; read line by line it is kept -/
 theorem splitlines_cut_names_before_fix :
